@@ -113,6 +113,10 @@ func runReinvest(ctx *action.Context, tx action.RawTx) (bool, action.Response) {
 
 	// cut rewards
 	coinAmt := invest.Amount.ToCoin(ctx.Currencies)
+	// the amount must be a valid (known currency, non-negative) amount
+	if !coinAmt.IsValid() {
+		return helpers.LogAndReturnFalse(ctx.Logger, action.ErrInvalidAmount, invest.Tags(), errors.New("Coin is not valid"))
+	}
 	err = ctx.NetwkDelegators.Rewards.MinusRewardsBalance(invest.Delegator, coinAmt.Amount)
 	if err != nil {
 		return helpers.LogAndReturnFalse(ctx.Logger, netwkDeleg.ErrReinvestRewards, invest.Tags(), err)
